@@ -2,7 +2,7 @@
    baseline, the plan, the replayed result and (parsed by tools/mysql_sqlparse.py) the MySQL statements THE
    IMPLEMENTATION emitted; everything below is evaluated by vm_compute on those terms.  No proofs here. *)
 From VV.M1 Require Export Corr.
-From VV.MYSQL Require Export Engine Assumptions Known.
+From VV.MYSQL Require Export Engine Assumptions Known Spec.
 
 Inductive impl_result :=
 | IOk (l : list (list stmt))      (* per action, empty strings dropped *)
@@ -95,3 +95,31 @@ Fixpoint verdicts_from (i : nat) (cs : list mysql_case) : list (nat * verdict) :
 
 (* theorem coverage: how many cases fall under the hypotheses of the proved lemmas *)
 Definition count_if {A} (p : A -> bool) (l : list A) : nat := List.length (filter p l).
+
+(* ModifyColumn* actions of a plan that target an existing column and replay, and how many of them satisfy
+   the hypothesis of C04_modify_preserves; (total, under hypothesis, on an auto-increment column) *)
+Fixpoint modify_stats (s : schema) (acts : list action) : nat * nat * nat :=
+  match acts with
+  | [] => (0, 0, 0)%nat
+  | a :: r =>
+      let '(n, h, k) := modify_stats (step s a) r in
+      match modify_target a with
+      | Some (t, c) =>
+          match lookup_column s t c, apply_action s a with
+          | Some col, Ok _ =>
+              (S n, if modify_default_ok a col then S h else h, if is_auto_col s t c then S k else k)
+          | _, _ => (n, h, k)
+          end
+      | None => (n, h, k)
+      end
+  end.
+Definition hyp_stats (cs : list mysql_case) : nat * nat * nat :=
+  fold_left (fun acc c => let '(n, h, k) := acc in
+                          let '(n', h', k') := modify_stats (mc_base c) (mc_actions c) in
+                          (n + n', h + h', k + k')%nat) cs (0, 0, 0)%nat.
+(* migrations that are judged, lie outside every known class, and hold *)
+Definition outside_stats (cs : list mysql_case) : nat * nat :=
+  fold_left (fun acc c =>
+               let '(o, okn) := acc in
+               if (judged (mc_base c) (mc_actions c) && negb (in_known_class (mc_base c) (mc_actions c)))%bool
+               then (S o, if Nat.eqb (v_code (oracle c)) 0 then S okn else okn) else (o, okn)) cs (0, 0)%nat.
